@@ -170,6 +170,11 @@ def jobs_for(ctx, props, n_generated, shipped_events, slow_events, gen_events, f
             jobs.append({"spec": {"kind": "shipped", "name": name, "end": 1e6, "debug_logging": True}, "props": list(props),
                          "seed": ctx.seed * 1000 + 950 + k, "max_events": max(200, shipped_events // 4),
                          "label": name + "(debug logging)"})
+        # trash lists that name their first tag twice (legal; the tags after the repeated one must still be trashed)
+        for k, name in enumerate(["coulomb_atoms/power_bounded", "dipoles/dipole_motion", "coulomb_atoms/cell_bounded"]):
+            jobs.append({"spec": {"kind": "shipped", "name": name, "end": 1e6, "repeat_trash_tags": True}, "props": list(props),
+                         "seed": ctx.seed * 1000 + 960 + k, "max_events": max(200, shipped_events // 2),
+                         "label": name + "(repeated trash tag)"})
         # shipped configurations under the multi-process mediator
         for k, (name, cores) in enumerate([("dipoles/dipole_motion", 4), ("coulomb_atoms/cell_bounded", 3),
                                            ("water/coulomb_power_bounded_lj_inverted", 8)]):
